@@ -58,13 +58,21 @@ def search(S):
                 S.check(name, "raises", inp, False, None, "%s: %s" % (type(e).__name__, str(e)[:200]), "offered operation raised")
                 break
     # direct sums: ad is offered (block diagonal); Ad and bracket must raise NotImplementedError
-    for name in ["DPa", "DPb", "DPc", "DPd"]:
+    for name in ["DPa", "DPb", "DPc", "DPd", "DPe", "DPf"]:
         grp = G[name]
         alg = grp.algebra
         m = alg.n_param
         x = rng.normal(size=m)
         adx = L.f(alg.elem(ca.DM(x)).ad())
         S.check(name + ".ad", "shape", {"x": x.tolist()}, adx.shape == (m, m), [m, m], list(adx.shape), "direct-sum ad is not m x m")
+        # ad_x y against the matrix commutator [x^, y^], read back through the (linear) hat map
+        if adx.shape == (m, m):
+            y = rng.normal(size=m)
+            Hx, Hy = L.f(alg.elem(ca.DM(x)).to_Matrix()), L.f(alg.elem(ca.DM(y)).to_Matrix())
+            basis = np.stack([L.f(alg.elem(ca.DM(np.eye(m)[i])).to_Matrix()).flatten() for i in range(m)], axis=1)
+            comm = (Hx @ Hy - Hy @ Hx).flatten()
+            coef, res, _, _ = np.linalg.lstsq(basis, comm, rcond=None)
+            S.check(name + ".ad", "is_commutator", {"x": x.tolist(), "y": y.tolist()}, bool(np.max(np.abs(basis @ coef - comm)) < 1e-9 and H.close(adx @ y, coef, 1e-8)), coef.tolist(), (adx @ y).tolist(), "direct-sum ad_x y is not the commutator [x^, y^]")
         for what, fn in (("Ad", lambda: grp.elem(ca.DM(L.sample(name, rng))).Ad()), ("bracket", lambda: alg.elem(ca.DM(x)) * alg.elem(ca.DM(x)))):
             try:
                 fn()
